@@ -33,6 +33,8 @@ def seeded_table():
         for p, r in checks.items():
             if r["exit"] == 1:
                 det.append(f"{p}: " + ", ".join(f"`{s}`" for s in (r.get("sub_checks_reporting") or ["?"])))
+        if m.get("status", "").startswith("superseded"):
+            det = ["superseded by fix e7f9b4a (demo passes with the change): not counted"]
         rows.append(f"| {m['id']} | {site} | {one_line(m['needs_to_manifest'], 260)} | {suite} | {'; '.join(det) if det else '**not detected**'} |")
     return "\n".join(rows)
 
